@@ -268,6 +268,14 @@ theorem loop_weights_prob {P : Params} (O : Oracles) (h : LoopHyp P) (hlp : ∀ 
   rw [List.getD_eq_getElem?_getD, List.getElem?_eq_getElem hlt]
   exact loop_Q_prob O h P.maxIter hlp _ (List.getElem_mem hlt)
 
+/-- **(c)** the fitted `weights_` (after the zero padding to every stored classifier) is a probability vector -/
+theorem loop_weights_padded_prob {P : Params} (O : Oracles) (h : LoopHyp P) (hlp : ∀ k, IsProb (O.lp k).Q)
+    (hne : bestIterOf (run P O) ≠ none) : IsProb (weightsOf (run P O)) := by
+  unfold weightsOf
+  cases hb : bestIterOf (run P O) with
+  | none => exact absurd hb hne
+  | some b => exact padTo_isProb _ _ (loop_weights_prob O h hlp b hb)
+
 /-- **(d)** `eta = (eta0 / B) * 0.8^k`, `k` = number of shrink events ≤ number of regret checks ≤ `t` -/
 theorem loop_eta_formula {P : Params} (O : Oracles) (h : LoopHyp P) (n : Nat) :
     (runN P O n).eta = EGLoopGen.etaInit P.eta0 P.B * EGGen.shrinkEta ^ (runN P O n).shrinks ∧
